@@ -195,6 +195,11 @@ def run(repo, gendir, builddir):
             f = line.split(" ")
             if f[0] == "CONST":
                 C.append(f"Definition gen_{f[1]} : Z := {f[2]}.")
+        # facts read from the source TEXT (a literal inside a function body that no probe can observe)
+        jd = open(os.path.join(repo, "src", "ArduinoJson", "Json", "JsonDeserializer.hpp"), errors="replace").read()
+        m = re.search(r"canBeInNumber\(c\)\s*&&\s*n\s*<\s*(\d+)\s*\)", jd)
+        C.append("(* parseNumericValue: `while (canBeInNumber(c) && n < K)` — K read from the source text; -1 = not of that form any more *)")
+        C.append(f"Definition gen_number_token_limit : Z := {m.group(1) if m else '(-1)'}.")
         new_cfg = "\n".join(C) + "\n"
         inv = _inventory(repo, builddir)
         G = ["(* GENERATED by tools/translate.py from /repo — do not edit *)",
